@@ -60,6 +60,8 @@ type Exec struct {
 	catching int
 	abstract []string // reasons this path used an unrealisable stub result
 	lockDepth int // >0 while a sync.Mutex / RWMutex is held: writes are synchronised
+	rdepth   int
+	initOK   map[string]bool
 	pools    map[string][]Val
 	syncMaps map[string]*Map
 	onceDone map[string]bool
